@@ -24,6 +24,7 @@ THEOREMS = [
     "Ebv.C09.key_ne", "Ebv.C09.hashvar_cells_independent", "Ebv.C09.hashvar_default",
     "Ebv.C09.hashvar_py_to_prog", "Ebv.C09.hashvar_prog_to_py", "Ebv.C09.hashvar_fixed_roundtrip",
     "Ebv.C09.refinement", "Ebv.C09.pop_deletes", "Ebv.C09.lookup_absent_else", "Ebv.C09.lookup_present_found",
+    "Ebv.C09.sysStep_other", "Ebv.C09.instances_independent", "Ebv.C09.restart_fresh", "Ebv.C09.sys_refinement",
 ]
 TRUSTED = ["hand-written model Ebv.HashVars (Structure/Member layout, Dict stack offsets, both sides' member access, TheDict operations, hash "
            "variables), tied by exact correspondence of every observable (offsets, outcomes, values read on either side) with the real classes and "
@@ -33,11 +34,14 @@ TRUSTED = ["hand-written model Ebv.HashVars (Structure/Member layout, Dict stack
 ASSUMPTIONS = ["program-side operands fit the member / variable format (a store truncates otherwise: C01/C07); Python-side values of any size",
                "member formats b B h H i I q Q (Member('x') cannot be packed from Python at all); hash variable formats the same plus x",
                "Dict(lru=False); flags ANY/NOEXIST/EXIST; at most 255 hash variables (pack('B', ordinal))",
-               "temporaries of the generated code stay below the Dict's key/value images on the stack (C04)"]
+               "temporaries of the generated code stay below the Dict's key/value images on the stack (C04)",
+               "several programs: instances of the declaring class and of a derived class (with inherited hash variables)"]
 RULE = ("declarations: 0..3 local variables before the Dict, 0..5 hash variables (formats bBhHiIqQ, 8% fixed-point x with |scaled value| < 2^45; defaults at the format's edges), Key/Value with "
         "1..5 packed members (5% deliberately unpacked -> AssembleError), capacity 1..6; 4..30 operations from both sides over a pool of 1..5 keys "
         "(python set/get/del/pop/iter, program update with ANY/NOEXIST/EXIST, lookup, modify-in-place, constant insert, hash variable get/set/add from "
-        "both sides, reload); non-trivial = a value crossed from one side to the other")
+        "both sides, reload); 40% of the cases spread the operations over 2..3 live programs of the same class (second instances created and "
+        "loaded in the middle of the sequence, 0..2 restarts of any program with the old object kept alive, shared key pool; without hash "
+        "variables a quarter of the extra programs are instances of a derived class); non-trivial = a value crossed from one side to the other")
 
 FIXED_BASE = 100000
 SIGNED = "bhiqx"
@@ -129,8 +133,34 @@ def gen(rng):
             ops.append([kind])
         else:
             ops.append([kind, k])
-    case["ops"] = ops
+    case["ops"] = several(rng, ops, bool(vs)) if rng.random() < 0.4 else ops
     return case
+
+
+def several(rng, ops, has_vars):
+    """spread the operations over 2..3 live programs of the same class: `["new", j]` creates and loads program j (a
+    second time = the program is restarted; the old object stays alive), `["on", j, op]` is `op` on program j (program 0:
+    the bare op).  The key pool is shared, so an entry or variable of one program showing up in another is visible."""
+    n = rng.choice([2, 2, 3])
+    who = [rng.randrange(n) if rng.random() < 0.8 else 0 for _ in ops]
+    out = [o if j == 0 else ["on", j, o] for o, j in zip(ops, who)]
+    for j in range(1, n):
+        first = next((i for i, o in enumerate(out) if o[0] == "on" and o[1] == j), len(out))
+        # a quarter of the further programs are instances of a derived class (hash variables inherited from the base class:
+        # HashMap.load used to raise KeyError for them, repaired in /repo, fixed entry C09-hashmap-in-base)
+        new = ["new", j, "sub"] if rng.random() < 0.25 else ["new", j]
+        out.insert(rng.randint(0, first), new)
+    for _ in range(rng.choice([0, 0, 1, 2])):      # restarts, program 0 included
+        out.insert(rng.randint(0, len(out)), ["new", rng.randrange(n)])
+    seen, ok = {0}, []
+    for o in out:                                   # a restart inserted before the creation is the creation
+        if o[0] == "on" and o[1] not in seen:
+            ok.append(["new", o[1]])
+            seen.add(o[1])
+        if o[0] == "new":
+            seen.add(o[1])
+        ok.append(o)
+    return ok
 
 
 # ---- the real classes ---------------------------------------------------------------
@@ -223,7 +253,25 @@ class Impl:
         self.case, self.K, self.real = case, K, K is None
         self.cls, self.Key, self.Value = build(case)
         self.e = self.cls(ProgType.XDP, "GPL")
+        self.insts, self.old, self.derived = {0: self.e}, [], None
         self.crossed = False
+
+    def new(self, j, derived=False):
+        """create and load program j (again); the previous object of that number stays alive"""
+        from ebpfcat.bpf import ProgType
+        if derived and self.derived is None:
+            self.derived = type("Derived", (self.cls,), {})
+        if j in self.insts:
+            self.old.append(self.insts[j])
+        try:
+            e = self.insts[j] = (self.derived if derived else self.cls)(ProgType.XDP, "GPL")
+            e.load()
+            return "new ok"
+        except Exception as ex:
+            return "new " + c10.exc_name(ex)
+
+    def on(self, j):
+        self.e = self.insts[j]
 
     def layout(self):
         d = self.cls.__dict__["tbl"]
@@ -469,13 +517,26 @@ def run_case(ctx, case, real_kernel=False):
         sh.tainted |= set(range(len(case["vars"])))
         ctx.require(False, "load() raised", case, lres, None)
     with (c10.emulated(K) if K is not None else _null()):
+        shadows = {0: sh}
         for idx, o in enumerate(case["ops"]):
+            if o[0] == "new":
+                got = imp.new(o[1], len(o) > 2 and o[2] == "sub")
+                outs.append(got)
+                sh = shadows[o[1]] = Shadow(case)      # a program created (again) starts from its declarations
+                sh.load()
+                if ctx is not None and got != "new ok":
+                    sh.tainted |= set(range(len(case["vars"])))
+                    sh.dead = True
+                    ctx.require(False, f"operation {idx}: creating and loading a second program of the class raised", case, got, None)
+                continue
+            j, o = (o[1], o[2]) if o[0] == "on" else (0, o)
+            imp.on(j)
             got = imp.op(o)
             outs.append(got)
             if ctx is not None:
                 if o[0].startswith("pr_") or o[0].startswith("hv_pr"):
                     imp.crossed = True
-                judge(ctx, case, imp, sh, o, got, idx)
+                judge(ctx, case, imp, shadows[j], o, got, idx if j == 0 else f"{idx} (program {j})")
     if K is not None and K.violation and ctx is not None:
         ctx.require(False, "buffer overrun under the emulated kernel (C10)", case, K.violation, "overrun")
     return outs, imp
@@ -510,10 +571,11 @@ def kernel_validation(ctx, cases):
             continue
         finally:
             pass
-        try:
-            imp.e.close()
-        except Exception:
-            pass
+        for e in list(imp.insts.values()) + imp.old:
+            try:
+                e.close()
+            except Exception:
+                pass
         done += 1
 
         def norm(x):
@@ -586,7 +648,10 @@ def run(ctx):
             ctx.require(False, what, c, observed, cls)
         ctx.case(c, nontrivial=bool(imp and imp.crossed), kind="asm-error" if imp is None else "case")
         for o, r in zip(c["ops"], outs[1:]):
+            o = o[2] if o[0] == "on" else o
             ctx.stats[o[0] + ":" + r.split(" ")[0]] += 1
+        if any(o[0] == "new" for o in c["ops"]):
+            ctx.stats["several-programs"] += 1
         impl.append(" | ".join(outs))
     model = ctx.drive(DRIVER, [model_case(c) for c in cases], "dict and hash variable operations")
     if model is not None:
@@ -611,7 +676,10 @@ LEVEL_TEXT = ("Lean 4 proofs over a hand-written model: Structure members occupy
               "and program operations on a Dict (set/get/del/iteration, update with flags, lookup, modify in place) refines the abstract dictionary over "
               "member tuples with equal observations (full-strength refinement, induction over the operation list, empty-Dict iteration included; pop deletes "
               "because the regenerated command is LOOKUP_AND_DELETE), absent keys take the Else branch; fixed-point hash variables carry the scaled value "
-              "in both directions. Tie: exact correspondence of offsets and of every "
+              "in both directions. With any number of live programs (instances of one class, restarts) every program makes exactly the observations "
+              "of a run of its own operations alone (instances_independent), a program created again starts with an empty Dict and default "
+              "variables and changes no other program (restart_fresh), and the whole system refines one abstract dictionary per program "
+              "(sys_refinement). Tie: exact correspondence of offsets and of every "
               "outcome with the real classes and the real generated program run in the interpreter over an emulated kernel shared with the Python side.")
 LEVEL_NOTE = ("trusted: Lean kernel + standard axioms (one non-vacuity example uses decide +kernel); hand model validated by differential runs; hash-map "
               "helper semantics and the emulated kernel modelled (thorough tier validates them against the real kernel where bpf() works: real program "
